@@ -137,7 +137,7 @@ def parse_sites():
     for l in body.split('\n'):
         m = re.match(r'\s*\("(.*?)", "(.*?)", "(.*?)", "(.*)", (\d+)%N\);?\s*$', l)
         if m:
-            sites.append(m.groups())
+            sites.append(tuple(x.replace('""', '"') for x in m.groups()))
     return sites
 
 
